@@ -20,6 +20,7 @@ All rights reserved.
 #include "simulator/http_server.hpp"
 
 #include <functional>
+#include <limits>
 #include <cstdio> // for printf
 
 using namespace sim::asio;
@@ -184,6 +185,10 @@ namespace sim
 				range = range.substr(range.find_first_of('=') + 1);
 				start = std::stoll(range.substr(0, range.find('-')));
 				end = std::stoll(range.substr(range.find_first_of('-') + 1)) + 1;
+				// a range that ends before it starts, or whose length does not fit
+				// the content-length, is malformed (the connection is closed)
+				if (start < 0 || end < start || end - start > (std::numeric_limits<int>::max)())
+					throw std::runtime_error("invalid range");
 			}
 
 			std::string header = "Content-Range: bytes " + std::to_string(start)
